@@ -483,9 +483,9 @@ Section Step.
       match nth_error (a_cls s) c with
       | Some cl =>
         let cl' := {| cl_id := None; cl_closed := cl_closed cl; cl_cache := []; cl_prev := [] |} in
-        Some ({| a_now := a_now s; a_store := a_store s;
-                 a_track := filter (fun e => negb (Nat.eqb (fst e) c)) (a_track s);
-                 a_infl := filter (fun e => negb (Nat.eqb (fst e) c)) (a_infl s);
+        (* tracking is per connection and a client has several: one of them is gone, invalidations queued on
+           the others may still arrive, so the server-side bookkeeping is left as it is *)
+        Some ({| a_now := a_now s; a_store := a_store s; a_track := a_track s; a_infl := a_infl s;
                  a_cls := upd c cl' (a_cls s); a_gets := map (close_all_waits c) (a_gets s);
                  a_loaded := a_loaded s; a_ext := a_ext s; a_lock := a_lock s |}, ONone)
       | None => None
